@@ -41,6 +41,7 @@ ELit(vs)      == [k |-> "lit", vs |-> vs]                 \* [v1, v2, ...] of in
 ELit2(vss)    == [k |-> "lit2", vss |-> vss]              \* [[..], [..]]
 EVar(x)       == [k |-> "var", x |-> x]
 EFilled(v, n) == [k |-> "filled", v |-> v, n |-> n]       \* array.filled(v, n), v an int
+EFilledV(x, n) == [k |-> "filledv", x |-> x, n |-> n]     \* array.filled(x, n), x an array variable: n clones of it
 EClone(T)     == [k |-> "clone", T |-> T]                 \* T.clone()
 EIdx(x, i)    == [k |-> "idx", x |-> x, i |-> i]          \* x[i] used as a value (aliases the inner array)
 ENone         == [k |-> "none"]
@@ -115,6 +116,14 @@ EvalE(c, E) ==
     [] E.k = "var"    -> [c |-> c, v |-> RV(c.env[E.x]), err |-> "", inm |-> TRUE]
     [] E.k = "filled" -> LET al == Alloc(c, [i \in 1..E.n |-> IV(E.v)])
                          IN [c |-> al.c, v |-> RV(al.a), err |-> "", inm |-> E.n >= 0]
+    [] E.k = "filledv" ->      \* `extend array<T Clone> { fn filled(x: T, n) }`: n independent deep copies of x
+         LET src == RV(c.env[E.x])
+             RECURSIVE Copies(_, _, _)
+             Copies(cc, k, acc) == IF k = 0 THEN [c |-> cc, l |-> acc]
+                                   ELSE LET r == CloneV(cc, src) IN Copies(r.c, k - 1, Append(acc, r.v))
+             r == Copies(c, E.n, <<>>)
+             al == Alloc(r.c, r.l)
+         IN [c |-> al.c, v |-> RV(al.a), err |-> "", inm |-> E.n >= 0 /\ NoSharing(c, src)]
     [] E.k = "clone"  -> LET t == EvalT(c, E.T) IN
                          IF t.err # "" THEN [c |-> c, v |-> IV(0), err |-> t.err, inm |-> TRUE]
                          ELSE LET r == CloneV(c, RV(t.a)) IN [c |-> r.c, v |-> r.v, err |-> "", inm |-> NoSharing(c, RV(t.a))]
@@ -197,6 +206,7 @@ RE(E) ==
     [] E.k = "lit2"   -> "[" \o JoinStr([i \in 1..Len(E.vss) |-> RInts(E.vss[i])], ", ") \o "]"
     [] E.k = "var"    -> E.x
     [] E.k = "filled" -> "array.filled(" \o ToString(E.v) \o ", " \o ToString(E.n) \o ")"
+    [] E.k = "filledv" -> "array.filled(" \o E.x \o ", " \o ToString(E.n) \o ")"
     [] E.k = "clone"  -> RT(E.T) \o ".clone()"
     [] E.k = "idx"    -> E.x \o "[" \o ToString(E.i) \o "]"
 ROp(o) ==
